@@ -1,32 +1,76 @@
 (* Props_C12.v — property C12 (include resolution; cycles always rejected). *)
-Require Import Base Includes.
-Require Import proofs.IncludesProofs.
+Require Import Base Includes gen.IncludeFacts.
+Require Import spec.Spec_C12 proofs.IncludesProofs.
 Open Scope list_scope.
 
 (* never loops / never exhausts: the walk's recursion depth is bounded by the number of files *)
 Theorem C12_terminates : forall w, walk_main w <> WFuel.
-Proof. exact walk_terminates. Qed.
+Proof. intro w. apply walk_terminates. Qed.
 Print Assumptions C12_terminates.
 
 (* acceptance implies that every include of every reachable file resolves and parses *)
-Theorem C12_accept_all_resolved : forall w l,
-  walk_main w = WOk l ->
+Theorem C12_accept_all_resolved : forall w l c,
+  walk_main w = WOk l c ->
   forall p, reach w p ->
     exists incs, includes_of w p = Some incs /\ forall i, In i incs -> exists t, resolve w p i = Some t.
-Proof. exact accepted_reachable_resolve. Qed.
+Proof. intros w l c. apply accepted_reachable_resolve. Qed.
 Print Assumptions C12_accept_all_resolved.
 
 (* acceptance implies that no reachable file lies on an include cycle (of any length,
    entered at any point) *)
-Theorem C12_accept_no_cycle : forall w l,
-  walk_main w = WOk l -> forall p, reach w p -> ~ steps w p p.
-Proof. exact accepted_no_reachable_cycle. Qed.
+Theorem C12_accept_no_cycle : forall w l c,
+  walk_main w = WOk l c -> forall p, reach w p -> ~ steps w p p.
+Proof. intros w l c. apply accepted_no_reachable_cycle. Qed.
 Print Assumptions C12_accept_no_cycle.
 
-(* each file is loaded once however many paths reach it *)
-Theorem C12_loaded_once : forall w l, walk_main w = WOk l -> NoDup l.
-Proof. exact loaded_once. Qed.
+(* each file is loaded once however many paths reach it, and only files are loaded *)
+Theorem C12_loaded_once : forall w l c, walk_main w = WOk l c -> NoDup l /\ incl l (files_of w).
+Proof. intros w l c. apply loaded_once. Qed.
 Print Assumptions C12_loaded_once.
+
+(* "an include naming a bare file resolves to the first directory, in command-line order followed
+   by the directory of the main input file, that contains a file of that name; an include whose
+   path has a directory part resolves relative to the including file": the model's resolution is
+   the Spec's, for every world, including file and include string *)
+Theorem C12_resolution_is_first_match : forall w cur inc, resolve w cur inc = spec_resolve w cur inc.
+Proof. exact resolve_is_spec. Qed.
+Print Assumptions C12_resolution_is_first_match.
+
+(* "compilation fails exactly when an include cannot be resolved or the resolved include graph
+   reachable from the main file contains a cycle": both directions *)
+Theorem C12_accepts_exactly_when : forall w,
+  (exists l c, walk_main w = WOk l c) <->
+  (forall p, reach w p -> ok_node w p) /\ (forall p, reach w p -> ~ steps w p p).
+Proof. intro w. apply accepts_iff. Qed.
+Print Assumptions C12_accepts_exactly_when.
+
+(* "exactly the declarations of the reachable files are visible": the store holds exactly the
+   reachable files *)
+Theorem C12_loaded_is_reachable : forall w l c,
+  walk_main w = WOk l c -> forall p, In p l <-> reach w p.
+Proof. intros w l c. apply loaded_is_reachable. Qed.
+Print Assumptions C12_loaded_is_reachable.
+
+(* all of the above hold for both variants of the walk (they are proved for
+   walk_main_gen skip, any skip).  "never by looping": the pinned upstream walk visited a file
+   once per path that reaches it - 1023 walks for a ladder of 9 diamonds (19 files), doubling
+   with every level ... *)
+Theorem C12_rewalk_refuted_upstream :
+  (match walk_main_gen false (ladder 9) with WOk l c => Some (N.of_nat (List.length l), c) | _ => None end) = Some (19, 1023)%N /\
+  (match walk_main_gen true (ladder 9) with WOk l c => Some (N.of_nat (List.length l), c) | _ => None end) = Some (19, 19)%N.
+Proof. exact ladder_walks_upstream. Qed.
+Print Assumptions C12_rewalk_refuted_upstream.
+
+(* ... the repaired walk (regenerated fact) visits every loaded file exactly once: the number of
+   walks is the number of loaded files, at most the number of files there are *)
+Theorem C12_walked_once : walk_skips_walked = true -> forall w l c,
+  walk_main w = WOk l c -> c = N.of_nat (List.length l) /\ (List.length l <= List.length (w_files w))%nat.
+Proof. intros F w l c. unfold walk_main. rewrite F. apply walked_once. Qed.
+Print Assumptions C12_walked_once.
+Theorem C12_walked_once_current : forall w l c,
+  walk_main w = WOk l c -> c = N.of_nat (List.length l) /\ (List.length l <= List.length (w_files w))%nat.
+Proof. exact (C12_walked_once eq_refl). Qed.
+Print Assumptions C12_walked_once_current.
 
 Open Scope string_scope.
 Open Scope list_scope.
@@ -34,6 +78,6 @@ Open Scope list_scope.
 Example C12_nonvacuous :
   let f := fun (n : string) (incs : list string) => (["r"; n], Some incs) in
   walk_main (mkW [f "m.idl" ["a.idl"; "b.idl"]; f "a.idl" ["c.idl"]; f "b.idl" ["c.idl"]; f "c.idl" []] [] ["r"; "m.idl"])
-    = WOk [["r"; "b.idl"]; ["r"; "c.idl"]; ["r"; "a.idl"]; ["r"; "m.idl"]] /\
+    = WOk [["r"; "b.idl"]; ["r"; "c.idl"]; ["r"; "a.idl"]; ["r"; "m.idl"]] 4 /\
   walk_main (mkW [f "m.idl" ["a.idl"]; f "a.idl" ["b.idl"]; f "b.idl" ["a.idl"]] [] ["r"; "m.idl"]) = WCycle.
 Proof. split; vm_compute; reflexivity. Qed.
